@@ -20,6 +20,10 @@ CHECKS = {
    text="The call protocol of SebufCall.tla (Start / Sent / Saw / Ret, extended by the header obligation: a value handed to a client through a header option is on the wire under exactly the header name the servers validate) is run over the three language pairs. MC_Interop model-checks the contract system (Completes, WrongNameBlocked) and enumerates pair x verb x route (path variable + optional/required query parameters, path only, two path variables, default route) x URL-field kind x value class x way of supplying a required service- or method-level header (constructor default, typed constructor option, per-call headers, typed per-call option, per-call override of a default) x header-name shape: 1056 cases. Each is executed through the REAL emitted modules: TS client -> Go server, Go client -> TS server (request and response relayed between node 22 and the Go driver), TS client -> TS server (in one node process over the emitted route table of all services of the module), and TLC validates the Load / Sent / Saw / Ret events of every call.",
    design="§7 C08", technique="TLA+ model checking (TLC) + replay of TLC-enumerated calls through the real emitted TS/Go clients and servers + TLC trace validation",
    note="Trusted: TLC; node 22 (type stripping) as the standards-compliant runtime; the relay between the two drivers copies verb, URL, headers and body bytes verbatim; the emitted TS server leaves routing to its user, so the harness matches templates segment-wise on the raw path; representation of a value inside the TS handler argument (string vs number/boolean for path variables) is C07's question, here it is compared as a value of the field's type."),
+ "C07": dict(
+   text="SebufTs.tla defines when a JSON value is a value of a declared TypeScript type with every present member declared at that position (Inhabits, over the abstract syntax of interfaces, literal unions, intersections, Record<>, arrays, optional and null unions); MC_Ts checks a truth table of the operator and enumerates the URL-field family. The REAL declarations of both TS plugins are read by harness/tsdecl and logged; TLC judges (A) for the 128 construct x context schemas of MC_Json and 3 (quick) / 9 (thorough) value classes each: the contract form Enc(schema, value) of requests against the declared request interface and the wire JSON of the real Go server against the TS client's result type, and client declarations = server declarations; (B) for verb x 12 field kinds x 64-bit encoding x placement (path, optional query, required query) x value class: the object the REAL emitted TS server hands to its handler (driven by the real TS client in node 22) against the declared request interface.",
+   design="§7 C07", technique="TLA+ operator (Inhabits) evaluated by TLC on the real emitted TypeScript declarations, real Go server wire JSON and real TS handler arguments (trace validation, inventory mode) + TLC-checked truth table",
+   note="Trusted: TLC; harness/tsdecl (a recursive-descent reader for the declaration subset the generators emit; unit-tested; a declaration it cannot read is a verdict declarations_unreadable, not a pass); node 22; where C05's findings make the wire differ from the contract form only the real wire is judged; precision of 64-bit values carried as JS numbers (int64_encoding=NUMBER, documented risk) is not judged."),
  "C02": dict(
    text="SebufWire.tla is model-checked exhaustively (MC_Wire_C02: verb x body shape x content type x URL value classes, 4320 abstract requests) for C02_UrlWins / C02_BadUrl400; every TLC-enumerated request is concretised per field kind and replayed through the real emitted BindingMiddleware, and the recorded events (BodyRead, HandlerSaw, Resp) are validated by TLC against Trace_Wire.tla, which re-derives the admissible handler view from the logged abstract request.",
    design="§7 C02", technique="TLA+ model checking (TLC) + replay of TLC-enumerated requests + TLC trace validation of real server events"),
